@@ -12,8 +12,10 @@ rsync -a --exclude target /repo/ $S/repo/; (cd $S/repo && git checkout -q -- . 2
 mkdir -p $S/verif; for f in harness check KNOWN_FINDINGS.txt replays golden MANIFEST.json; do cp -r /verif/$f $S/verif/; done
 cp -r /verif/target $S/verif/target 2>/dev/null   # a real copy: hardlinked cargo target dirs contaminate each other
 rm -rf $S/verif/replays/found
+pname() { case "$1" in */seeded/*) echo "seeded-$(basename $(dirname $1))-$(basename $1)";; *) basename "$1";; esac; }
 targets() {  # which checks a patch is aimed at
   local n=$(basename "$1")
+  case "$1" in */seeded/C[0-9][0-9]/*) echo "$1" | sed -E 's#.*/seeded/(C[0-9][0-9])/.*#\1#'; return;; esac
   case "$n" in
     m-c[0-9][0-9]-*) echo "C${n:3:2}";;
     revert-ad8ebb7*) echo "C01 C02 C03 C13";;
@@ -24,24 +26,24 @@ targets() {  # which checks a patch is aimed at
     revert-cf8626f*) echo "C08";;
     revert-09f2b93*) echo "C11";;
     revert-b4b92c6*) echo "C06";;
-    revert-3c5464c*) echo "C04";;
+    revert-3c5464c*|revert-ee12e2d*|revert-cfdb02d*) echo "C04";;
     *) echo "";;
   esac
 }
-PATCHES=("$@")
+PATCHES=(); for a in "$@"; do PATCHES+=("$(readlink -f "$a")"); done
 if [ ${#PATCHES[@]} -eq 0 ]; then PATCHES=(/verif/mutants/*.patch); fi
 : > "$OUT"
 for p in "${PATCHES[@]}"; do
   ids=${SWEEP_IDS:-$(targets "$p")}
   [ -z "$ids" ] && continue
   cd $S/repo
-  if ! git apply --check "$p" 2>/dev/null; then printf "%s\t-\tDOES-NOT-APPLY\t\n" "$(basename $p)" >> "$OUT"; continue; fi
+  if ! git apply --check "$p" 2>/dev/null; then printf "%s\t-\tDOES-NOT-APPLY\t\n" "$(pname $p)" >> "$OUT"; continue; fi
   git apply "$p"
   for id in $ids; do
     out=$(cd $S/verif && VERIF_SEED=${VERIF_SEED:-0} ./check $id quick 2>&1); rc=$?
     case $rc in 1) v=CAUGHT;; 0) v=MISSED;; *) v="INCONCLUSIVE";; esac
     sig=$(echo "$out" | grep -B1 '^VIOLATION' | head -1 | sed 's/^  //' | cut -d' ' -f1)
-    printf "%s\t%s\t%s\t%s\n" "$(basename $p)" "$id" "$v" "$sig" >> "$OUT"
+    printf "%s\t%s\t%s\t%s\n" "$(pname $p)" "$id" "$v" "$sig" >> "$OUT"
   done
   git checkout -q -- . ; git clean -fdq src tests 2>/dev/null
 done
